@@ -18,4 +18,42 @@ Body == { Ln("401000", "push", <<Reg("%rax")>>), Ln("401001", "call", <<Target("
           Ln("401009", "movq", <<Reg("%rax"), Reg("%rbx")>>), Ln("40100c", "leave", <<>>), Ln("40100d", "ret", <<>>),
           Ln("40100e", "pushq", <<Imm("0x1")>>), Ln("401010", "mov", <<Mem("", "%rax", "", ""), Reg("%rbx")>>) }
 Lsts == { <<LabelLine("0000000000401000", "f")>> \o s : s \in UNION { [1..n -> Body] : n \in 0..2 } }
+
+(***************************************************************************)
+(* A second universe: macro-free rule documents for the other DSL features *)
+(* (captures with back-references, register-family captures, `times',      *)
+(* $not, any-order, $or, $deref), written by Unparse, over listings with   *)
+(* registers at two widths and memory operands -- so that the compiled     *)
+(* regexes with groups, back-references, look-aheads and bounded           *)
+(* repetition go through the scan of the composed model.                   *)
+(***************************************************************************)
+Spb == [times |-> "body", upper |-> FALSE, ints |-> FALSE]
+FI(m) == PIns(m, <<>>)
+FDeref(fs) == Node("deref", "", fs, 1, 1)
+FField(n, v) == Node("dfield", n, <<Node("flit", v, <<>>, 1, 1)>>, 1, 1)
+FeaturePatterns ==
+    { PAnd(<<PIns("push", <<OCap("r")>>), PIns("pop", <<OCap("r")>>)>>),
+      PAnd(<<PICap("i"), PICap("i")>>),
+      PAnd(<<WithTimes(FI("push"), 1, 2), FI("call")>>),
+      PAnd(<<WithTimes(PAnd(<<FI("push"), FI("pop")>>), 2, 2)>>),
+      PAnd(<<PNot(FI("push")), FI("ret")>>),
+      PAnd(<<PPerm(<<FI("push"), FI("call")>>)>>),
+      PAnd(<<POr(<<FI("call"), PAnd(<<FI("push"), FI("pop")>>)>>), FI("ret")>>),
+      PAnd(<<PIns("mov", <<FDeref(<<FField("main_reg", "rax")>>)>>)>>),
+      PAnd(<<PIns("mov", <<FDeref(<<FField("main_reg", "rax"), FField("constant_offset", "0x8")>>), OLit("rbx")>>)>>),
+      PAnd(<<PIns("mov", <<ORCap("genreg-1", "genreg", "64"), ORCap("genreg-2", "genreg", "64")>>),
+             PIns("mov", <<ORCap("genreg-1", "genreg", "32"), ORCap("genreg-2", "genreg", "32")>>)>>),
+      PAnd(<<PIns("push", <<OCap("r")>>), PIns("mov", <<ONot(OCap("r")), OCap("r")>>)>>) }
+Docs2 == { Rule(<<>>, Unparse(P, Spb), "-", "-") : P \in FeaturePatterns }
+Body2 == { Ln("401000", "push", <<Reg("%rax")>>), Ln("401001", "push", <<Reg("%rbx")>>), Ln("401002", "pop", <<Reg("%rax")>>),
+           Ln("401003", "pop", <<Reg("%rbx")>>), Ln("401004", "call", <<Target("401020")>>), Ln("401009", "ret", <<>>),
+           Ln("40100a", "mov", <<Mem("", "%rax", "", ""), Reg("%rbx")>>), Ln("40100d", "mov", <<Mem("0x8", "%rax", "", ""), Reg("%rbx")>>),
+           Ln("401011", "mov", <<Reg("%rax"), Reg("%rbx")>>), Ln("401014", "mov", <<Reg("%eax"), Reg("%ebx")>>),
+           Ln("401016", "mov", <<Reg("%ebx"), Reg("%eax")>>) }
+Lsts2 == { <<LabelLine("0000000000401000", "f")>> \o s : s \in UNION { [1..n -> Body2] : n \in 0..2 } }
+       \cup { <<LabelLine("0000000000401000", "f")>> \o <<a, b, c, d>> : a, c \in { l \in Body2 : l.mn = "push" }, b, d \in { l \in Body2 : l.mn = "pop" } }
+
+MCPairs == (Docs \X Lsts) \cup (Docs2 \X Lsts2)
+MCInit == \E pr \in MCPairs : JInitFor(pr[1], pr[2])
+MCSpec == MCInit /\ [][JNext]_allvars
 =============================================================================
